@@ -431,3 +431,60 @@ def group_outputs(case, r):
         tl = tls.get(k, [])
         res.append((l['items'], tl[n]['items'] if n < len(tl) else None))
     return res
+
+
+# ------------------------------------------------------------------------------------------------
+# feedback loops: a subscriber that pushes a follow-up item into the source from inside its on_next (re-entrant schedule)
+# ------------------------------------------------------------------------------------------------
+
+FEEDBACK_TERMS = [[['scan', ['add'], 0, False, None]], [['count', False]], [['map', ['add', 1]], ['scan', ['add'], 0, False, None]],
+                  [['sum', None, False]], [['scan', ['max'], 0, False, None]], [['map', ['mul', 2]]]]
+
+
+def feedback_cases(tier, rng, plain_share=0.5):
+    for _ in range({'quick': 24, 'thorough': 200, 'search': 12}[tier]):
+        items = [rng.randrange(1, 9) for _ in range(rng.choice([2, 3, 5]))]
+        yield {'kind': 'feedback', 'term': rng.choice(FEEDBACK_TERMS), 'items': items, 'after': rng.randrange(len(items)),
+               'fb_item': rng.choice([10, 100, 7]), 'plain': rng.random() < plain_share, 'no_model': True}
+
+
+def feedback_real(case):
+    return quiet(muxreal.run_feedback, case['term'], case['items'], case['after'], case['fb_item'], plain=case['plain'])
+
+
+def feedback_violation(case, r):
+    """every output is emitted while the push that determines it is the innermost one in progress, and its value is what the list
+    semantics give for the items in the order they were pushed (the follow-up item comes right after the item whose output set it off)"""
+    import pyref
+    from catalog import dec as _dec, enc as _enc
+    if 'harness_exc' in r:
+        return 'real code raised: ' + r['harness_exc']
+    if r.get('raised') or r.get('errors'):
+        return None
+    try:
+        ch, fin = pyref.ref_pipe(case['term'], [_dec(x) for x in r['pushes']])
+    except pyref.NotCovered:
+        return None
+    if case['term'][-1][0] == 'sum':
+        return _feedback_sum(case, r)
+    want = [[_enc(x), j] for j, c in enumerate(ch) for x in c]
+    got = [o for o in r['outs'] if o[1] is not None]
+    if strict_ne(got, want) or len(got) != len(r['outs']) - len(fin):
+        return ('%s%s, items pushed %s (the subscriber pushes %s from inside the on_next of output #%d): outputs [value, push in progress] %s, '
+                'the list semantics of the pushed sequence give %s' % ('plain ' if case['plain'] else '', case['term'], r['pushes'], case['fb_item'],
+                                                                     case['after'], str(r['outs'])[:300], str(want)[:300]))
+    return None
+
+
+def _feedback_sum(case, r):
+    from catalog import dec as _dec
+    xs = [_dec(x) for x in r['pushes']]
+    acc, want = 0, []
+    for j, x in enumerate(xs):
+        acc = acc + x
+        want.append([float(acc), j])
+    got = [[float(_dec(o[0])), o[1]] for o in r['outs']]
+    if got != want:
+        return ('%ssum over the pushed sequence %s (feedback after output #%d): outputs [value, push in progress] %s, running sums %s'
+                % ('plain ' if case['plain'] else '', r['pushes'], case['after'], str(got)[:300], str(want)[:300]))
+    return None
